@@ -244,3 +244,22 @@ MUTANTS += [
     dict(name="c12_sparse_test_recentred", prop="C12", file=PRE,
          old="        Kc = (Knm - self.K_fit_rows_) / self.scale_", new="        Kc = (Knm - (self.K_fit_rows_ if Knm.shape[0] != 1 else Knm.mean(axis=0))) / self.scale_"),
 ]
+
+PW = "src/skmatter/metrics/_pairwise.py"
+MUTANTS += [
+    # ---------------------------------------------------------------- C15
+    dict(name="c15_floor_for_round", prop=["C15", "C16", "C17"], file=PW,
+         old="    XY -= np.round(XY / cell) * cell\n    distance", new="    XY -= np.floor(XY / cell) * cell\n    distance"),
+    dict(name="c15_mahalanobis_no_wrap", prop=["C15", "C17"], file=PW,
+         old="        if cell is not None:\n            XY -= np.round(XY / cell) * cell", new="        if cell is not None and XY.shape[1] == 1:\n            XY -= np.round(XY / cell) * cell"),
+    dict(name="c15_sqrt_twice", prop="C15", file=PW,
+         old="    if not squared:\n        dists **= 0.5", new="    if not squared:\n        dists **= 0.5\n        if cell_length is not None and dists.shape[0] > 1:\n            dists **= 0.5"),
+    dict(name="c15_wrap_only_positive", prop=["C15", "C16"], file=PW,
+         old="    XY -= np.round(XY / cell) * cell\n    distance", new="    XY -= np.round(np.abs(XY) / cell) * cell\n    distance"),
+    dict(name="c15_squared_ignored_nonperiodic_ok", prop="C15", file=PW,
+         old="    if squared:\n        distance **= 2\n    return distance", new="    if squared and distance.shape[0] > 1:\n        distance **= 2\n    return distance"),
+    dict(name="c15_cell_check_lenient", prop="C15", file=PW,
+         old='    if (cell_length is not None) and (X.shape[1] != len(cell_length)):', new='    if (cell_length is not None) and (X.shape[1] < len(cell_length)):'),
+    dict(name="c15_stack_shares_first", prop=["C15", "C17"], file=PW,
+         old="        return np.sum(XY * np.transpose(cov_inv @ XY.T, (0, 2, 1)), axis=-1).reshape(", new="        cov_inv = cov_inv if cov_inv.shape[0] < 3 else np.repeat(cov_inv[:1], cov_inv.shape[0], axis=0)\n        return np.sum(XY * np.transpose(cov_inv @ XY.T, (0, 2, 1)), axis=-1).reshape("),
+]
